@@ -757,6 +757,12 @@ impl G {
                 self.add("loop", mn, w, format!("(ILoop {} {})", k, t2), format!("{} 0x{:x}", mn, t2), vec![], Enc { opc: &[opc], imm: imm_bytes(rel as u64, 1), ..none_enc(m) }, t2 as i64);
             }
         }
+        // round 8: the stack pointer as indirect target (call reads it BEFORE the push); the processor faults fetching from the
+        // stack, so these are compared with the specification only
+        self.add("ctl-sp", "call", w, "(ICallInd (OReg 4))".into(), format!("call {}", regname(4, w)), vec![Op::Reg(4)],
+            Enc { mode: m, opsz: w, def64: true, pre: &[], opc: &[0xFF], reg: Some(RegF::Digit(2)), rm: Some((&Op::Reg(4), false)), plusr: None, imm: vec![] }, 0);
+        self.add("ctl-sp", "jmp", w, "(IJmpInd (OReg 4))".into(), format!("jmp {}", regname(4, w)), vec![Op::Reg(4)],
+            Enc { mode: m, opsz: w, def64: true, pre: &[], opc: &[0xFF], reg: Some(RegF::Digit(4)), rm: Some((&Op::Reg(4), false)), plusr: None, imm: vec![] }, 0);
         self.add("ret", "ret", w, "IRet0".into(), "ret".into(), vec![], Enc { opc: &[0xC3], ..none_enc(m) }, 0);
         for v in [8u64, 0x10, 0x7ff8] {
             self.add("ret", "ret", w, format!("(IRet {})", v), format!("ret 0x{:x}", v), vec![], Enc { opc: &[0xC2], imm: imm_bytes(v, 2), ..none_enc(m) }, v as i64);
@@ -1445,7 +1451,7 @@ fn sample(f: &Form, r: &mut Rng, k: usize) -> Sample {
         }
     }
     match f.class {
-        "stack" | "ctl" | "ctl-ind" | "ret" | "leave" => {
+        "stack" | "ctl" | "ctl-ind" | "ctl-sp" | "ret" | "leave" => {
             s.ranges.push((s.g[4].wrapping_sub(24), 56));
             if f.class == "leave" { s.ranges.push((s.g[5].wrapping_sub(8), 32)); }
             if f.class == "ret" { s.ranges.push((s.g[4].wrapping_add(f.aux as u64).wrapping_sub(8), 24)); }
@@ -1686,6 +1692,7 @@ fn main() {
                 || ((f.class == "shift-imm" || f.class == "shift-cl") && ["shl", "shr", "sar", "rol", "ror"].contains(&f.mnem.as_str()) && o0.map_or(false, |d| regop(d) || memok(d)))
                 || f.coq.starts_with("(IJmpRel") || f.coq.starts_with("(IRet ") || f.coq == "IRet0" || f.coq.starts_with("(ILoop") || f.coq.starts_with("(IJcxz") || f.coq.starts_with("(IJcc")
                 || (f.class == "bt" && f.coq.starts_with("(IBt") && o0.map_or(false, |d| regop(d) || (memok(d) && o1.is_none())))
+                || f.coq.starts_with("(ICallRel") || (f.coq.starts_with("(ICallInd") && o0.map_or(false, |d| regop(d) || memok(d)))
                 || (f.coq.starts_with("(IJmpInd") && o0.map_or(false, |d| regop(d) || memok(d)))
                 || (f.class == "unary" && ["inc", "dec", "neg", "not"].contains(&f.mnem.as_str()) && o0.map_or(false, |d| regop(d) || memok(d)))
                 || (f.class == "setcc" && o0.map_or(false, |d| regop(d)))
@@ -1696,7 +1703,7 @@ fn main() {
             // ... of which also covered by a sim theorem (Props/C01.v); memory forms: under the no-wrap state condition
             let mem_dst = o0.map_or(false, |d| memok(d));
             let _ = mem_dst;
-            let excluded = (f.mnem == "xor" && f.ops.len() == 2 && f.ops[0] == f.ops[1]) || f.mnem == "setp" || f.mnem == "setnp" || f.mnem == "jp" || f.mnem == "jnp";
+            let excluded = (f.mnem == "xor" && f.ops.len() == 2 && f.ops[0] == f.ops[1]) || f.mnem == "setp" || f.mnem == "setnp" || f.mnem == "jp" || f.mnem == "jnp" || f.coq == "(ICallInd (OReg 4))";
             if mirrored && !excluded { bump("encodings:sim-theorem-and-tie", 1); }
         }
         let mname = if f.mode == Mode::M64 { "amd64" } else { "x86" };
@@ -1708,7 +1715,7 @@ fn main() {
         let descr = format!("{} [{}] {} -- {} samples ({} with processor result); lift: {}{}", mname, hexs(&f.bytes), f.text, it.samples.len(), ncpu_ok, lkind,
             if let Lifted::Mismatch(m) = &it.lifted { format!(" ({})", m) } else { String::new() });
         cases.push(Case {
-            coq: format!("(mkcase {} {} {} {} {} (mirror_instr {} {} {}) {})", f.mode.coq(), CODE_AT, f.bytes.len(), f.coq, lcoq, f.mode.coq(), CODE_AT, f.coq, coq_list(samples_coq)),
+            coq: format!("(mkcase {} {} {} {} {} (mirror_instr {} {} {} {}) {})", f.mode.coq(), CODE_AT, f.bytes.len(), f.coq, lcoq, f.mode.coq(), CODE_AT, f.bytes.len(), f.coq, coq_list(samples_coq)),
             descr,
             tags,
             nontrivial: lkind == "accepted" && !it.samples.is_empty(),
